@@ -68,14 +68,110 @@ def unit_real_eval(n, opts):
     return res
 
 
+def lines_of(n):
+    rows = [[r * n + c for c in range(n)] for r in range(n)]
+    cols = [[r * n + c for r in range(n)] for c in range(n)]
+    diags = []
+    for d in range(-(n - 1), n):
+        l = [r * n + (r - d) for r in range(n) if 0 <= r - d < n]
+        if len(l) > 1:
+            diags.append(l)
+    for sm in range(0, 2 * n - 1):
+        l = [r * n + (sm - r) for r in range(n) if 0 <= sm - r < n]
+        if len(l) > 1:
+            diags.append(l)
+    return rows, cols, diags
+
+
+def flat_and(e):
+    if z3.is_and(e):
+        out = []
+        for c in e.children():
+            out += flat_and(c)
+        return out
+    return [e]
+
+
+def unit_decomposed(n, opts):
+    """Larger boards: the monolithic query 'emitted <=> specification' is a pigeonhole problem the solver does not finish
+    beyond n = 11.  The same equivalence is decided through intermediate lemmas, each a solver query of its own:
+
+      soundness   (S1) emitted => row r holds exactly one queen, for every r;
+                  (S2) n integers equal to one add up to n  (the row sums abstracted to opaque integers; the number of
+                       queens is the sum of the row sums - the same n*n summands regrouped);
+                  (S3) emitted => no two queens attack each other;
+      completeness(C1) no-attack => every row, column and diagonal holds at most one queen;
+                  (C2) n integers that are at most one and add up to n are all equal to one (rows; columns likewise);
+                  (C3) specification and the line facts of C1 / C2 => E, for every top-level conjunct E of the emitted
+                       formula (the whole formula if it is not a conjunction).
+    All unsat: the two formulas have the same models.  A model of S1 / S3 / C3 is an assignment on which they disagree
+    (the lemmas asserted in C3 follow from the specification) and is re-evaluated directly before it is reported."""
+    res = dict(queries=[], method=None, config=dict(generator='n_queens_gen', args=['-n', str(n)]))
+    rc, out, err = run_gen('n_queens_gen', ['-n', str(n)])
+    if rc != 0:
+        res['cex'] = dict(obligation='generator runs', case=dict(kind='gen', generator='n_queens_gen', args=['-n', str(n)], stdin=None, what='generator failed: rc=%s %s' % (rc, err[-200:])))
+        res['queries'].append(dict(name='generator produces output', result='sat', expect='unsat', time=0.0, backend='run', size=None))
+        return res
+    try:
+        tree = genlang.parse(out)
+    except genlang.ParseError as e:
+        res['cex'] = dict(obligation='output is a well-formed formula', case=dict(kind='gen', generator='n_queens_gen', args=['-n', str(n)], stdin=None, what='not well formed: %s' % e, text=out[:400]))
+        res['queries'].append(dict(name='output is a well-formed formula (reference parser)', result='sat', expect='unsat', time=0.0, backend='genlang', size=None))
+        return res
+    env = {}
+    emitted = genlang.to_z3(tree, env)
+    spec, names, problems = spec_for(n)(tree, env)
+    for pmsg in problems:
+        res['queries'].append(dict(name=pmsg, result='sat', expect='unsat', time=0.0, backend='check', size=None))
+        res['cex'] = dict(obligation=pmsg, case=dict(kind='gen', generator='n_queens_gen', args=['-n', str(n)], stdin=None, what=pmsg, text=out[:400]))
+    x = [env[nm] for nm in names]
+    S = lambda l: z3.Sum([z3.If(x[i], 1, 0) for i in l])
+    rows, cols, diags = lines_of(n)
+    noattack = spec.children()[1] if n > 1 else z3.BoolVal(True)
+    R = [z3.Int('linesum_%d' % r) for r in range(n)]
+    obl = []
+    for r, l in enumerate(rows):
+        obl.append(('S1 the formula implies: row %d holds exactly one queen' % r, [emitted, S(l) != 1], True))
+    obl.append(('S2 n integers equal to one add up to n', [z3.And(*[v == 1 for v in R]), z3.Sum(R) != n], False))
+    obl.append(('S3 the formula excludes every pair of attacking queens', [emitted, z3.Not(noattack)], True))
+    for kind, ls in (('row', rows), ('column', cols), ('diagonal', diags)):
+        for i, l in enumerate(ls):
+            obl.append(('C1 no attack => %s %d holds at most one queen' % (kind, i), [noattack, S(l) >= 2], False))
+    obl.append(('C2 n integers that are at most one and add up to n are all one', [z3.And(*[v <= 1 for v in R]), z3.Sum(R) == n, z3.Or(*[v != 1 for v in R])], False))
+    lemmas = [S(l) == 1 for l in rows + cols] + [S(l) <= 1 for l in diags]
+    for i, e in enumerate(flat_and(emitted)):
+        obl.append(('C3 specification (with its line facts) implies conjunct %d of the formula' % i, [spec] + lemmas + [z3.Not(e)], True))
+    for nm, fs, disagree in obl:
+        q, model = decide_equiv(nm + ' [n=%d]' % n, z3.And(*fs), z3.BoolVal(False), timeout_s=opts.get('timeout', 300))
+        res['queries'].append(q)
+        if q['result'] == 'sat' and not res.get('cex'):
+            if disagree:
+                asg = {k2: bool(model.get('x_' + k2, False)) for k2 in names}
+                res['cex'] = dict(obligation=q['name'], case=dict(kind='gen', generator='n_queens_gen', args=['-n', str(n)], stdin=None, assignment=asg, text=out, names=names, spec_value=None))
+            else:
+                res['status'] = 'inconclusive'
+                res['error'] = 'a lemma of the decomposition does not hold: "%s"' % nm
+        elif q['result'] not in ('sat', 'unsat'):
+            res['status'] = 'inconclusive'
+            res['error'] = 'solver: %s on "%s"' % (q['result'], nm)
+    res['formula_chars'] = len(out)
+    res['variables'] = len(names)
+    res['sample'] = dict(config=res['config'], method='equivalence through row / column / diagonal lemmas', variables=len(names), obligations=len(obl))
+    return res
+
+
 def main():
     quick = TIER != 'thorough'
-    ns = list(range(1, 11)) if quick else list(range(1, 17))
+    ns = list(range(1, 11)) if quick else list(range(1, 12))      # monolithic equivalence query
     jobs = [('n=%d' % n, tv_unit, ('n=%d' % n, 'n_queens_gen', ['-n', str(n)], None, ('c15', 'spec_for', (n,)), dict(timeout=250 if quick else 2000, check_real_parser=n <= 10))) for n in ns]
+    # beyond n = 11 the monolithic query is a pigeonhole problem that z3 does not finish in half an hour; the same
+    # equivalence is decided through line lemmas (unit_decomposed), also for two sizes the monolithic query covers
+    sound_ns = [9, 11, 12] if quick else [9] + list(range(11, 21))
+    jobs += [('n=%d (equivalence through line lemmas)' % n, unit_decomposed, (n, dict(timeout=300 if quick else 1500))) for n in sound_ns]
     for n in (1, 2, 3, 4):
         jobs.append(('n=%d real evaluator' % n, unit_real_eval, (n, {})))
     rep = tv_main(PID, jobs, spec_eval,
-                  bounds={'board_sizes': '%d..%d (real evaluator additionally for n <= 4)' % (ns[0], ns[-1]), 'assignments': 'all 2^(n*n), decided by the solver'},
+                  bounds={'board_sizes': '%d..%d exact model-set equality (real evaluator additionally for n <= 4)%s' % (ns[0], ns[-1], '; through line lemmas: n = %s' % ', '.join(map(str, sound_ns))), 'assignments': 'all 2^(n*n), decided by the solver'},
                   assumptions=['the generator itself runs concretely (one run per board size); only the assignment space is decided symbolically', 'reference front end checks/genlang.py',
                                'specification: exactly n queens and no two on a common row, column or diagonal'],
                   uncovered=['board sizes beyond the bound (n >= 256 overflows the u16 index arithmetic)', 'writing to an output file instead of stdout'])
